@@ -278,7 +278,7 @@ func calibrate() {
 
 // TestC09Kill: a saving process killed at an arbitrary instant leaves a complete snapshot behind.
 func TestC09Kill(t *testing.T) {
-	col := ev.Get("C09", "kill", "a child process (vhelper saver) saves a generated sequence with the real JsonDataStore and reports begin i / end i on a pipe; the parent sends SIGKILL at a generated instant (after 'begin k' plus a delay drawn from the measured save duration of that size class); afterwards a raw read and Load in the parent must yield 'absent' only if no save had ended, else a complete snapshot with index in [last end reported, last begin reported] and matching content hash; non-trivial = the kill fell between a begin and its end; distinct by (seed,size,kill point)")
+	col := ev.Get("C09", "kill", "a child process (vhelper saver) saves a generated sequence with the real JsonDataStore and reports begin i / end i on a pipe; the parent sends SIGKILL at a generated instant (after 'begin k' plus a delay drawn from the measured save duration of that size class); afterwards a raw read and Load in the parent must yield 'absent' only if no save had ended, else a complete snapshot with index in [last end reported, last begin reported] and matching content hash; in 7 of 10 cases a second run then saves 1-3 snapshots of another size class into the same directory (with whatever the killed run left there) and the store must hold exactly its last snapshot; non-trivial = the kill fell between a begin and its end; distinct by (seed,size,kill point)")
 	helper := helperPath(t)
 	calibrate()
 	rapid.Check(t, func(rt *rapid.T) {
@@ -350,7 +350,29 @@ func TestC09Kill(t *testing.T) {
 			}
 		}
 		inside := lastBegin > lastEnd
-		col.Add(fmt.Sprintf("%d/%s/%d/%d/%d", seed, size, count, k, frac), inside, map[string]int{"size:" + size: 1, "killed-inside-a-save": btoi(inside), "killed-between-saves": btoi(!inside)}, 1,
+		// the next run of the program saves into the same directory, with whatever the killed one left there
+		// (temporary files of an interrupted save); often its snapshots are smaller than the interrupted one
+		secondRun := rapid.IntRange(0, 9).Draw(rt, "secondRun") < 7
+		if secondRun {
+			seed2 := seed + 1
+			size2 := sizeGen.Draw(rt, "sizeAfterRestart")
+			count2 := rapid.IntRange(1, 3).Draw(rt, "savesAfterRestart")
+			outB, err := exec.Command(helper, "saver", dir, strconv.FormatInt(seed2, 10), strconv.Itoa(count2), size2).CombinedOutput()
+			if err != nil || strings.Contains(string(outB), "error") || strings.Contains(string(outB), "fatal") {
+				rt.Fatalf("after SIGKILL during save %d: the next run cannot save: %v %s", lastBegin, err, strings.ReplaceAll(clipN(string(outB), 300), dir, "<dir>"))
+			}
+			st2, _ := store.NewJSONDataStore(dir)
+			for _, viaLoad := range []bool{false, true} {
+				idx, err := observe(dir, st2, seed2, size2, viaLoad)
+				if err != nil {
+					rt.Fatalf("a run after SIGKILL during save %d saved %d snapshots (size %s after %s) without error, then: %v", lastBegin, count2, size2, size, err)
+				}
+				if idx != count2-1 {
+					rt.Fatalf("a run after SIGKILL saved %d snapshots without error, the store holds snapshot %d of it", count2, idx)
+				}
+			}
+		}
+		col.Add(fmt.Sprintf("%d/%s/%d/%d/%d/%v", seed, size, count, k, frac, secondRun), inside, map[string]int{"size:" + size: 1, "killed-inside-a-save": btoi(inside), "killed-between-saves": btoi(!inside), "second-run-after-kill": btoi(secondRun)}, 1,
 			map[string]interface{}{"seed": seed, "size": size, "saves": count, "kill_after_begin": k, "delay_percent_of_save": frac, "last_begin": lastBegin, "last_end": lastEnd})
 	})
 }
